@@ -34,7 +34,14 @@ MIN_OBS = {'runs_compared': {'quick': 10, 'thorough': 200}, 'truncations': {'qui
 
 
 # scripted type-flow histories: (project shape, module that decides a type, variant field)
-SCRIPTED = [('chain', 'l', 't'), ('diamond', 'l', 't'), ('deep', 'k', 't'), ('chain', 'u', 'lt'), ('deep', 'u', 'lt')]
+SCRIPTED = [('chain', 'l', 't'), ('diamond', 'l', 't'), ('deep', 'k', 't'), ('chain', 'u', 'lt'), ('deep', 'u', 'lt'), ('chain', 'l', 't', 'inproc'), ('deep', 'k', 't', 'inproc'), ('chain', 'g', '')]
+
+
+def script_of(key: str, field: str) -> list:
+	if key == 'g':
+		# the project's own grammar file is edited, every source keeps its text
+		return [('g', 1), ('g', 0), ('g', 1)]
+	return [(key, {field: 'str'}), (key, {field: 'float'}), (key, {field: 'int', 'extra': 1})]
 
 
 def diff_outputs(a: dict[str, str], b: dict[str, str]) -> str | None:
@@ -52,9 +59,10 @@ def under(path: str, base: str) -> bool:
 	return os.path.abspath(path).startswith(os.path.abspath(base) + os.sep) or os.path.abspath(path) == os.path.abspath(base)
 
 
-def run_history(acc: Acc, r: random.Random, workdir: str, hid: int, n_steps: int, shape: str | None = None, script: list | None = None) -> None:
+def run_history(acc: Acc, r: random.Random, workdir: str, hid: int, n_steps: int, shape: str | None = None, script: list | None = None, inproc: bool = False) -> None:
 	shape = shape or r.choice(['chain', 'diamond', 'deep', 'deep'])
-	h = History(r, shape, workdir, f'h{hid}')
+	own_grammar = bool(script and script[0][0] == 'g') or (not script and r.random() < 0.3)
+	h = History(r, shape, workdir, f'h{hid}', own_grammar=own_grammar)
 	case_base = {'kind': 'history', 'seed': hid}
 	# first run creates the caches
 	p, _ = h.run(True)
@@ -64,17 +72,28 @@ def run_history(acc: Acc, r: random.Random, workdir: str, hid: int, n_steps: int
 	stale_possible = False
 	for step in range(len(script) if script else n_steps):
 		x = r.random()
+		p_pre = None
 		if script:
 			# scripted history: the type-deciding module is edited, everything else keeps its text
 			key, variant = script[step]
-			h.edit(key, dict(h.hp.variants[key], **variant))
+			if key == 'g':
+				h.edit_grammar(variant)
+			elif inproc:
+				p_pre = h.run_edit_run(True, key, dict(h.hp.variants[key], **variant))
+			else:
+				h.edit(key, dict(h.hp.variants[key], **variant))
 			stale_possible = True
-			acc.see('op', 'scripted-edit:' + key)
+			acc.see('op', ('scripted-run+edit+run-in-one-process:' if inproc else 'scripted-edit:') + key)
 		elif x < 0.45:
 			key, variant = h.hp.random_edit(r)
-			h.edit(key, variant)
+			if h.cache_enabled and r.random() < 0.3:
+				# the edit happens between two runs of one interpreter process (watcher / in-process driver)
+				p_pre = h.run_edit_run(True, key, variant)
+				acc.see('op', 'run+edit+run-in-one-process:' + key)
+			else:
+				h.edit(key, variant)
+				acc.see('op', 'edit:' + key)
 			stale_possible = True
-			acc.see('op', 'edit:' + key)
 		elif x < 0.55:
 			h.touch(r.choice(list(h.hp.names)))
 			acc.see('op', 'touch')
@@ -85,19 +104,24 @@ def run_history(acc: Acc, r: random.Random, workdir: str, hid: int, n_steps: int
 		elif x < 0.72:
 			h.set_cache(not h.cache_enabled)
 			acc.see('op', 'cache-' + ('on' if h.cache_enabled else 'off'))
+		elif x < 0.85 and h.own_grammar:
+			h.edit_grammar()
+			stale_possible = True
+			acc.see('op', 'edit-grammar')
 		else:
 			pass
 		# run + compare (after every mutation step)
-		audit = not h.cache_enabled
-		if audit:
+		audit = not h.cache_enabled and p_pre is None
+		if p_pre is not None:
+			p, events = p_pre, []
+		else:
 			# "with caching disabled no cache file is read or written": start from whatever earlier runs left behind
-			pass
-		p, events = h.run(True, audit=audit)
+			p, events = h.run(True, audit=audit)
 		case = dict(case_base, **h.describe())
 		warm_failed = cli.failed(p)
 		cold, cold_failed, cold_msg = h.cold_reference(workdir, f'{hid}-{step}')
 		acc.see('runs_compared', 'cache-' + ('on' if h.cache_enabled else 'off'))
-		state_sig = sig_of((shape, sorted((k, sorted(v.items())) for k, v in h.hp.variants.items()), h.cache_enabled, h.log[-2][0] if len(h.log) > 1 else ''))
+		state_sig = sig_of((shape, sorted((k, sorted(v.items())) for k, v in h.hp.variants.items()), h.cache_enabled, h.grammar_variant, h.log[-2][0] if len(h.log) > 1 else ''))
 		acc.case(state_sig, {'shape': shape, 'last_ops': h.log[-4:], 'cache_enabled': h.cache_enabled} if step == 2 else None, stale_possible)
 		if cold_failed:
 			acc.inconc('cold reference run failed (project does not transpile)', cold_msg)
@@ -182,10 +206,10 @@ def shard(ctx: Ctx, acc: Acc) -> None:
 			acc.extra.setdefault('harness_errors', []).append(fmt_exc(e))
 			return
 		# scripted type-flow histories, one per project shape: only the module that decides the type changes
-		for j, (shape, key, field) in enumerate(SCRIPTED):
+		for j, (shape, key, field, *mode) in enumerate(SCRIPTED):
 			if (j + 1) % ctx.nshards == ctx.shard:
 				try:
-					run_history(acc, ctx.rng('scripted', j), workdir, 9000 + j, 0, shape, [(key, {field: 'str'}), (key, {field: 'float'}), (key, {field: 'int', 'extra': 1})])
+					run_history(acc, ctx.rng('scripted', j), workdir, 9000 + j, 0, shape, script_of(key, field), inproc=bool(mode))
 				except Exception as e:  # noqa
 					acc.extra.setdefault('harness_errors', []).append(fmt_exc(e))
 					return
@@ -213,8 +237,8 @@ def replay(ctx: Ctx, case: dict, acc: Acc) -> None:
 		else:
 			if case.get('seed', 0) >= 9000:
 				j = case['seed'] - 9000
-				shape, key, field = SCRIPTED[j]
-				run_history(acc, ctx.rng('scripted', j), workdir, case['seed'], 0, shape, [(key, {field: 'str'}), (key, {field: 'float'}), (key, {field: 'int', 'extra': 1})])
+				shape, key, field, *mode = SCRIPTED[j]
+				run_history(acc, ctx.rng('scripted', j), workdir, case['seed'], 0, shape, script_of(key, field), inproc=bool(mode))
 			else:
 				run_history(acc, ctx.rng('history', case.get('seed', 0)), workdir, case.get('seed', 0), 9)
 	finally:
